@@ -12,7 +12,8 @@ The theorems (Props/C12.lean) say for which sites the produced text is the same 
 pair of orders with different text for the sites where it is not.
 
 Code-following parts: `sortBy` (Python `sorted(.., key=..)` / `list.sort(key=..)`: stable), `callerLoop`
-(python_types `_generate_struct_class_reflection_attributes` / `_generate_union_class_reflection_attributes`),
+(python_types `_generate_struct_class_reflection_attributes` / `_generate_union_class_reflection_attributes`;
+`callerLoopStr` is its form before the repair of the `Omitted("None")` tie),
 `tagmapsLineSorted` (the `_permissioned_tagmaps` line; `tagmapsLine` is its form before the repair of D15), `dedupTy` / `procsOf` / `emitProcs`
 (`_generate_custom_annotation_processors` and the two `_generate_*_class_custom_annotations`), `addImported` /
 `importedNamespaces` (`ApiNamespace.add_imported_namespace`, `get_imported_namespaces`, the loop at the end of
@@ -44,9 +45,13 @@ def sortBy {α κ : Type} (key : α → κ) (le : κ → κ → Bool) : List α 
 /-- Python `str <=` (lexicographic by code point) -/
 def strLe (a b : String) : Bool := decide (a ≤ b)
 
-/-- Python tuple `<=` on `(str, int)` -/
+/-- Python tuple `<=` on `(str, int)` (`bool` is an `int`: `False` = 0, `True` = 1) -/
 def pairLe (a b : String × Nat) : Bool :=
   if a.1 = b.1 then decide (a.2 ≤ b.2) else strLe a.1 b.1
+
+/-- Python tuple `<=` on `(str, str)` -/
+def strPairLe (a b : String × String) : Bool :=
+  if a.1 = b.1 then strLe a.2 b.2 else strLe a.1 b.1
 
 /-- "`π` is an order in which `set(l)` may be iterated" -/
 def SetOrder {α : Type} (π l : List α) : Prop := π.Nodup ∧ ∀ x, x ∈ π ↔ x ∈ l
@@ -61,13 +66,22 @@ def dedup {α : Type} [DecidableEq α] : List α → List α
 /-- an element of `get_all_omitted_callers() | {None}`: `None` is the public caller -/
 abbrev Caller := Option String
 
-/-- `str(caller)`, the sort key of both loops -/
+/-- `str(caller)` -/
 def pyStr : Caller → String
   | none => "None"
   | some s => s
 
-/-- `for omitted_caller in sorted(child_omitted_callers | parent_omitted_callers, key=str)` -/
-def callerLoop (π : List Caller) : List Caller := sortBy pyStr strLe π
+/-- `_omitted_caller_sort_key`: `(str(omitted_caller), omitted_caller is not None)`, the sort key of both loops
+(pinned by `Tables.setSortSites`, which carries the text of the function's `return`) -/
+def callerKey (c : Caller) : String × Nat := (pyStr c, if c.isSome then 1 else 0)
+
+/-- `for omitted_caller in sorted(child_omitted_callers | parent_omitted_callers, key=_omitted_caller_sort_key)` -/
+def callerLoop (π : List Caller) : List Caller := sortBy callerKey pairLe π
+
+/-- the loop as it was before the repair (`sorted(.., key=str)`): `str(None) == str("None")`, so a caller named
+`None` tied with the public caller. Kept as the regression model (`caller_loop_order_dependent`) and to say that the
+repair changes nothing where there is no tie (`caller_loop_as_before`). -/
+def callerLoopStr (π : List Caller) : List Caller := sortBy pyStr strLe π
 
 /-- `map_name_prefix` / `tagmap_name` of one iteration -/
 def callerPrefix : Caller → String
@@ -105,13 +119,19 @@ def tagmapsLineSorted (cls : String) (π : List String) : List String :=
 
 /-! ## Custom annotation processors (python_types) -/
 
-/-- a custom annotation as far as the generated text goes: its type (defining namespace, name) and the constructor
-call text of `_generate_custom_annotation_instance` -/
+/-- a custom annotation as far as the generated text goes: its type (defining namespace, name), the constructor
+call text of `_generate_custom_annotation_instance`, and its own identity (`annotation.namespace.name`,
+`annotation.name`: what `remaining_annotations` is sorted by) -/
 structure Ann where
   tyNs : String
   tyName : String
   inst : String
+  annNs : String
+  annName : String
   deriving DecidableEq, Repr
+
+/-- `lambda annotation: (annotation.namespace.name, annotation.name)` -/
+def Ann.key (a : Ann) : String × String := (a.annNs, a.annName)
 
 /-- one `(annotation_type, code)` pair yielded by `_generate_custom_annotation_processors` -/
 structure Proc where
@@ -121,6 +141,9 @@ structure Proc where
   deriving DecidableEq, Repr
 
 def Proc.ty (p : Proc) : String × String := (p.tyNs, p.tyName)
+
+/-- `lambda x: (x[0].name, x[0].namespace.name)`: the key the processors of one field are sorted by -/
+def Proc.key (p : Proc) : String × String := (p.tyName, p.tyNs)
 
 /-- `class_name_for_annotation_type(annotation_type, ns)`: qualified when the type lives in another namespace -/
 def annClass (ns : String) (tyNs tyName : String) : String :=
@@ -152,6 +175,10 @@ inductive Kind where
   | map         -- `inner` = processors of the value type
   deriving DecidableEq, Repr
 
+/-- `remaining_annotations = sorted((annotation for _, annotation in all_annotations.difference(indirect_annotations)),
+key=lambda annotation: (annotation.namespace.name, annotation.name))`; `πr` = the set difference in iteration order -/
+def remaining (πr : List (String × Ann)) : List Ann := sortBy Ann.key strPairLe (πr.map (·.2))
+
 /-- One activation of `_generate_custom_annotation_processors(ns, data_type, extra_annotations)`.
 `πd` : `dt.recursive_custom_annotations` (a set of (owner, annotation) pairs) in iteration order;
 `πr` : `all_annotations.difference(indirect_annotations)` in iteration order;
@@ -163,11 +190,22 @@ def procsOf (ns : String) (k : Kind) (inner : List Proc) (πd πr : List (String
     | .subtypes => dedupTy inner
     | .list => inner.map (wrapProc "bb.make_list_annotation_processor")
     | .map => inner.map (wrapProc "bb.make_map_value_annotation_processor"))
-  ++ πr.map (fun x => partialProc x.2) ++ extras.map partialProc
+  ++ (remaining πr).map partialProc ++ extras.map partialProc
 
-/-- `sorted(recursive_processors, key=lambda x: x[0].name)` and the `if annotation_type is <class>:` / code lines
-emitted for one field -/
+/-- the activation as it was before the repair: `remaining_annotations` a list comprehension over the set difference,
+in iteration order. Regression model (`procs_order_dependent_same_type`). -/
+def procsOfUnsorted (ns : String) (k : Kind) (inner : List Proc) (πd πr : List (String × Ann)) (extras : List Ann) :
+    List Proc :=
+  procsOf ns k inner πd [] [] ++ πr.map (fun x => partialProc x.2) ++ extras.map partialProc
+
+/-- `sorted(recursive_processors, key=lambda x: (x[0].name, x[0].namespace.name))` and the
+`if annotation_type is <class>:` / code lines emitted for one field -/
 def emitProcs (ns : String) (l : List Proc) : List (String × String) :=
+  (sortBy Proc.key strPairLe l).map fun p => (annClass ns p.tyNs p.tyName, p.code)
+
+/-- the sort as it was before the repair (`key=lambda x: x[0].name`): annotation types of the same name in two
+namespaces tied. Regression model (`procs_order_dependent_same_name`). -/
+def emitProcsByName (ns : String) (l : List Proc) : List (String × String) :=
   (sortBy Proc.tyName strLe l).map fun p => (annClass ns p.tyNs p.tyName, p.code)
 
 /-! ## Imported namespaces (stone/ir/api.py, loop at the end of `_populate_recursive_custom_annotations`) -/
@@ -292,13 +330,13 @@ def trackerRunLate : List String → List (List String × Bool) → List (List S
 def modelledSites : List (String × String × Nat × String) := [
   -- adhoc imports: emitted in set order; at most one distinct literal is ever registered (`adhoc_order_free`)
   ("stone/backends/python_type_stubs.py", "PythonTypeStubsBackend._generate_imports_needed_for_typing", 0, "for"),
-  -- `_generate_custom_annotation_processors`: #1 and #4 introduce an order (`procsOf`), #0 #2 #3 pass on the order of
-  -- the recursive activation (`inner`)
+  -- `_generate_custom_annotation_processors`: #1 introduces an order (`procsOf`), #0 #2 #3 pass on the order of
+  -- the recursive activation (`inner`); (the comprehension over the set difference -- formerly #4 -- is sorted now:
+  --  `remaining`, see `modelledSortSites`)
   ("stone/backends/python_types.py", "PythonTypesBackend._generate_custom_annotation_processors", 0, "for"),
   ("stone/backends/python_types.py", "PythonTypesBackend._generate_custom_annotation_processors", 1, "for"),
   ("stone/backends/python_types.py", "PythonTypesBackend._generate_custom_annotation_processors", 2, "for"),
   ("stone/backends/python_types.py", "PythonTypesBackend._generate_custom_annotation_processors", 3, "for"),
-  ("stone/backends/python_types.py", "PythonTypesBackend._generate_custom_annotation_processors", 4, "comp"),
   -- (the `format` site of `_generate_union_class_reflection_attributes` -- the printed set of D15 -- is gone: the
   --  members are sorted now, see `modelledSortSites`; printing the set again would be an unmodelled site)
   -- whitelist: start types, `list(set(..))` of types / route names (`filterDataTypes`, `filterRoutes`)
@@ -322,11 +360,18 @@ def modelledSites : List (String × String × Nat × String) := [
 /-- how the items of a sorted site are keyed -/
 inductive KeyClass where
   | strings        -- items are `str`, sorted by themselves: always injective
-  | callerStr      -- `key=str` on callers and `None`: injective unless a caller is literally "None"
+  | callerKey      -- `(str(caller), caller is not None)` on callers and `None`: always injective (`callerKey_inj`)
   | nsName         -- namespaces by name: injective inside one Api
   | typeName       -- data types by bare name: NOT injective across namespaces
-  | annTypeName    -- processors by annotation-type name: NOT injective (`procs_*`)
+  | annTypeKey     -- processors by (annotation-type name, its namespace): ties are processors of ONE type, whose
+                   -- relative order is fixed by `procsOf` (`field_procs_order_free`)
+  | annNsName      -- annotations by (namespace, name): injective inside one Api
   deriving DecidableEq, Repr
+
+/-- the key of the two caller loops as the translator reports it: the name of the module-level function and the
+expression it returns -/
+def callerKeySrc : String :=
+  "_omitted_caller_sort_key = lambda omitted_caller: (str(omitted_caller), omitted_caller is not None)"
 
 /-- sorted sites: (file, function, ordinal, key text) ↦ key class -/
 def modelledSortSites : List ((String × String × Nat × String) × KeyClass) := [
@@ -337,14 +382,19 @@ def modelledSortSites : List ((String × String × Nat × String) × KeyClass) :
   (("stone/backends/obj_c.py", "ObjCBaseBackend._get_imports_m", 0, "list-sort:"), .strings),
   (("stone/backends/obj_c_types.py", "ObjCTypesBackend.generate", 0, ""), .strings),
   (("stone/backends/python_type_stubs.py", "PythonTypeStubsBackend._generate_imports_needed_for_typing", 0, ""), .strings),
+  -- `remaining_annotations` (`remaining`)
+  (("stone/backends/python_types.py", "PythonTypesBackend._generate_custom_annotation_processors", 0,
+    "lambda annotation: (annotation.namespace.name, annotation.name) [over annotation]"), .annNsName),
   (("stone/backends/python_types.py", "PythonTypesBackend._generate_struct_class_custom_annotations", 0,
-    "list-sort:lambda x: x[0].name"), .annTypeName),
+    "list-sort:lambda x: (x[0].name, x[0].namespace.name)"), .annTypeKey),
   (("stone/backends/python_types.py", "PythonTypesBackend._generate_union_class_custom_annotations", 0,
-    "list-sort:lambda x: x[0].name"), .annTypeName),
-  (("stone/backends/python_types.py", "PythonTypesBackend._generate_struct_class_reflection_attributes", 0, "str"), .callerStr),
+    "list-sort:lambda x: (x[0].name, x[0].namespace.name)"), .annTypeKey),
+  (("stone/backends/python_types.py", "PythonTypesBackend._generate_struct_class_reflection_attributes", 0,
+    callerKeySrc), .callerKey),
   -- `_permissioned_tagmaps`: `sorted(all_omitted_callers)` (`tagmapsLineSorted`)
   (("stone/backends/python_types.py", "PythonTypesBackend._generate_union_class_reflection_attributes", 0, ""), .strings),
-  (("stone/backends/python_types.py", "PythonTypesBackend._generate_union_class_reflection_attributes", 1, "str"), .callerStr),
+  (("stone/backends/python_types.py", "PythonTypesBackend._generate_union_class_reflection_attributes", 1,
+    callerKeySrc), .callerKey),
   (("stone/ir/api.py", "ApiNamespace.get_namespaces_imported_by_route_io", 0, "lambda n: n.name"), .nsName),
   (("stone/ir/api.py", "ApiNamespace.get_route_io_data_types", 0, "lambda dt: dt.name"), .typeName)]
 
